@@ -887,5 +887,178 @@ Section Ref.
       destruct (rs (ev fn o)) as [f|]; cbn [bindr]; [|exact Hf].
       apply (call_value_good bad u Hu_ok Hbad_type Hu_raise f x Hf Hs).
     Qed.
+
+    Lemma guard_bind src tbl dflt :
+      Forall (fun ve => guardQ (snd ve)) tbl -> Popt guardQ dflt -> guardQ (EBind src tbl dflt).
+    Proof.
+      intros Ht Hd o. rewrite (U validate_EBind), rs_bind. intros H.
+      apply bindr_ok in H as [[] [_ H]]. rewrite rs_bind in H. apply bindr_ok in H as [x [Hx H]].
+      rewrite pick_assoc in H. rewrite (U eval_EBind), rs_wrap. apply res_good_wrapr.
+      rewrite rs_bind, Hx. cbn [bindr]. rewrite pick_assoc.
+      destruct (assoc_v x tbl) as [b|] eqn:E.
+      - destruct (assoc_v_In _ _ _ E) as [v Hin]. apply (Forall_snd_In guardQ tbl v b Ht Hin o H).
+      - destruct dflt as [d|]; [apply (Hd o H)|discriminate].
+    Qed.
+
+    Lemma guard_switch disp tbl dflt :
+      Forall (fun ve => guardQ (snd ve)) tbl -> Popt guardQ dflt -> guardQ (ESwitch disp tbl dflt).
+    Proof.
+      intros Ht Hd o. rewrite (U validate_ESwitch), rs_bind. intros H.
+      apply bindr_ok in H as [dv [Hdv H]].
+      rewrite (U eval_ESwitch), rs_wrap. apply res_good_wrapr. rewrite rs_bind, Hdv. cbn [bindr].
+      destruct dv as [k|].
+      - destruct (negb (hashable k)); [discriminate|]. rewrite pick_assoc in H. rewrite pick_assoc.
+        destruct (assoc_v k tbl) as [b|] eqn:E.
+        + destruct (assoc_v_In _ _ _ E) as [v Hin]. apply (Forall_snd_In guardQ tbl v b Ht Hin o H).
+        + destruct dflt as [d|]; [apply (Hd o H)|discriminate].
+      - destruct dflt as [d|]; [apply (Hd o H)|discriminate].
+    Qed.
+
+    Lemma guard_case disp cases dflt :
+      Forall (fun cr => guardQ (fst cr) /\ guardQ (snd cr)) cases -> Popt guardQ dflt ->
+      guardQ (ECase disp cases dflt).
+    Proof.
+      intros Hc Hd o. rewrite va_case, rs_bind. intros H.
+      apply bindr_ok in H as [[] [_ H]]. rewrite rs_bind in H. apply bindr_ok in H as [x [Hx H]].
+      rewrite rs_case_go in H. apply bindr_ok in H as [s [Hs H]].
+      rewrite ev_case, rs_wrap. apply res_good_wrapr. rewrite rs_bind, Hx. cbn [bindr].
+      rewrite rs_case_go, Hs. cbn [bindr]. destruct s as [r|].
+      - destruct (case_sel_In _ _ _ _ Hs) as [c Hin]. rewrite Forall_forall in Hc.
+        apply (proj2 (Hc (c, r) Hin) o H).
+      - rewrite rs_dflt_or in *. destruct dflt as [d|]; [apply (Hd o H)|discriminate].
+    Qed.
+
+    Lemma iter_guard o es :
+      Forall guardQ es -> Forall (fun x => rs (va x o) = Ok tt) es ->
+      match rs (iter_go o es) with Ok vs => vsgood bad vs = true | Err c _ => bad c = false end.
+    Proof.
+      induction es as [|x es IH]; intros HQ HV; [reflexivity|].
+      inversion HQ; subst. inversion HV; subst. specialize (IH H2 H4). specialize (H1 o H3).
+      rewrite rs_iter_cons. destruct (rs (ev x o)) as [v|c ee]; cbn [bindr res_good] in *.
+      - destruct (is_some (deep_err v)); cbn [catchr].
+        + unfold vsgood. cbn. now rewrite H1.
+        + destruct (rs (iter_go o es)) as [vs|c ee]; cbn [bindr catchr].
+          * unfold vsgood in *. cbn [forallb]. now rewrite H1, IH.
+          * destruct (unmodb c); [exact IH|]. unfold vsgood. cbn. now rewrite IH.
+      - cbn [catchr]. destruct (unmodb c); [exact H1|]. unfold vsgood. cbn. now rewrite H1.
+    Qed.
+
+    Lemma guard_iter es : Forall guardQ es -> guardQ (EIter es).
+    Proof.
+      intros HQ o. rewrite (U validate_EIter). intros H. apply iterM_ok_Forall in H.
+      pose proof (iter_guard o es HQ H) as G.
+      rewrite ev_iter, rs_wrap. apply res_good_wrapr. rewrite rs_bind.
+      destruct (rs (iter_go o es)) as [vs|c ee]; cbn [bindr]; [|exact G]. exact G.
+    Qed.
+
+    Lemma guard_with force pr e : guardQ e -> guardQ (EWith force pr e).
+    Proof. intros He o H. rewrite (U validate_EWith) in H. rewrite rs_ev_with. apply (He _ H). Qed.
+    Lemma guard_cached c e : guardQ e -> guardQ (ECached c e).
+    Proof. intros He o H. rewrite va_cached in H. rewrite rs_ev_cached. apply (He _ H). Qed.
+    Lemma guard_logged e : guardQ e -> guardQ (ELogged e).
+    Proof. intros He o H. rewrite (U validate_ELogged) in H. rewrite rs_ev_logged. apply (He _ H). Qed.
+
+    Lemma mapM_guard o es :
+      Forall guardQ es -> Forall (fun x => rs (va x o) = Ok tt) es ->
+      match rs (mapM unit (fun x => ev x o) es) with Ok vs => vsgood bad vs = true | Err c _ => bad c = false end.
+    Proof.
+      induction es as [|x es IH]; intros HQ HV; [reflexivity|].
+      inversion HQ; subst. inversion HV; subst. specialize (IH H2 H4). specialize (H1 o H3).
+      rewrite rs_mapM_cons. destruct (rs (ev x o)) as [v|c ee]; cbn [bindr res_good] in *; [|exact H1].
+      destruct (rs (mapM unit _ es)) as [vs|c ee]; cbn [bindr]; [|exact IH].
+      unfold vsgood in *. cbn [forallb]. now rewrite H1, IH.
+    Qed.
+
+    Lemma guard_call partial f args kwargs :
+      guardQ f -> Forall guardQ args -> Forall guardQ kwargs -> guardQ (ECall partial f args kwargs).
+    Proof.
+      intros Hf Ha Hk o. rewrite (U validate_ECall), rs_bind. intros H.
+      apply bindr_ok in H as [[] [H1 H]]. rewrite rs_bind in H. apply bindr_ok in H as [[] [H2 H3]].
+      apply iterM_ok_Forall in H2. apply iterM_ok_Forall in H3.
+      specialize (Hf o H1). pose proof (mapM_guard o args Ha H2) as Ga. pose proof (mapM_guard o kwargs Hk H3) as Gk.
+      rewrite (U eval_ECall), rs_wrap. apply res_good_wrapr. rewrite rs_bind.
+      destruct (rs (ev f o)) as [fv|]; cbn [bindr res_good] in *; [|exact Hf]. rewrite rs_bind.
+      destruct (rs (mapM unit _ args)) as [av|]; cbn [bindr]; [|exact Ga]. rewrite rs_bind.
+      destruct (rs (mapM unit _ kwargs)) as [kv|]; cbn [bindr]; [|exact Gk].
+      destruct partial.
+      - destruct fv; try exact Hbad_unmod. rewrite rs_ret. cbn [res_good vgood] in *.
+        apply andb_prop in Hf as [Hp Hq]. fold (vsgood bad (pre ++ av)). fold (vsgood bad (post ++ kv)).
+        rewrite !vsgood_app. unfold vsgood in *. now rewrite Hp, Hq, Ga, Gk.
+      - apply (call_value_n_good bad u Hu_ok Hbad_type Hu_raise fv (av ++ kv) Hf).
+        rewrite vsgood_app. now rewrite Ga, Gk.
+    Qed.
+
+    Lemma guard_pipe steps : Forall guardQ steps -> guardQ (EPipe steps).
+    Proof.
+      intros Hs o. rewrite (U validate_EPipe). intros H. apply iterM_ok_Forall in H.
+      pose proof (mapM_guard o steps Hs H) as G.
+      rewrite (U eval_EPipe), rs_wrap. apply res_good_wrapr. rewrite rs_bind.
+      destruct (rs (mapM unit _ steps)) as [fs|]; cbn [bindr]; [|exact G].
+      rewrite rs_ret. cbn [res_good vgood forallb]. rewrite andb_true_r. now apply vsgood_rev.
+    Qed.
+
+    Lemma effects_guard o v effs :
+      vgood bad v = true -> Forall guardQ effs -> Forall (fun x => rs (va x o) = Ok tt) effs ->
+      match rs (iterM unit (fun eff => f <- ev eff o ;; call_value unit u f v ;;; ret unit tt) effs) with
+      | Ok _ => True | Err c _ => bad c = false end.
+    Proof.
+      intros Hv. induction effs as [|x effs IH]; intros HQ HV; [exact I|].
+      inversion HQ; subst. inversion HV; subst. specialize (IH H2 H4). specialize (H1 o H3).
+      rewrite rs_iterM_cons, rs_bind.
+      destruct (rs (ev x o)) as [f|c ee]; cbn [bindr res_good] in *; [|exact H1].
+      rewrite rs_bind. pose proof (call_value_good bad u Hu_ok Hbad_type Hu_raise f v H1 Hv) as G.
+      destruct (rs (call_value unit u f v)) as [w|c ee]; cbn [bindr res_good] in *; [|exact G].
+      rewrite rs_ret. cbn [bindr]. exact IH.
+    Qed.
+
+    Lemma guard_comp e effs : guardQ e -> Forall guardQ effs -> guardQ (EComp e effs).
+    Proof.
+      intros He Hf o. rewrite (U validate_EComp), rs_bind. intros H.
+      apply bindr_ok in H as [[] [H1 H]]. specialize (He o H1).
+      rewrite (U eval_EComp), rs_wrap. apply res_good_wrapr. rewrite rs_bind.
+      destruct (rs (ev e o)) as [v|]; cbn [bindr res_good] in *; [|exact He]. rewrite rs_bind.
+      destruct (effects_opt_off o).
+      - rewrite rs_ret. cbn [bindr]. rewrite rs_ret. exact He.
+      - apply iterM_ok_Forall in H. pose proof (effects_guard o v effs He Hf H) as G.
+        destruct (rs (iterM unit _ effs)); cbn [bindr]; [rewrite rs_ret; exact He|exact G].
+    Qed.
+
+    Lemma guard_all : guardQ EAllOptions.
+    Proof.
+      intros o. rewrite (U validate_EAllOptions), rs_bind. intros H.
+      apply bindr_ok in H as [v [H _]]. rewrite (U eval_EAllOptions), H. cbn [res_good].
+      rewrite rs_wrap in H. apply (proj1 (wrapr_ok _ _ _)) in H. unfold all_options_eval in H.
+      rewrite rs_bind, rs_emit in H. cbn [bindr] in H. rewrite rs_bind in H.
+      apply bindr_ok in H as [j [_ H]]. rewrite rs_ret in H. now inversion H.
+    Qed.
+
+    (** the fragment of the guard theorem: everything except Coalesce (finding D20), Template,
+        Map, and an Option that has both a default and a domain (finding D4) *)
+    Definition pG : fopts :=
+      {| f_coalesce := false; f_lazy := true; f_template := false; f_effects := true; f_dom := true;
+         f_domdflt := false; f_presets := true; f_partialbind := true; f_alloptions := true |}.
+
+    Theorem guard_main e : fragP pG e = true -> guardQ e.
+    Proof.
+      apply (fragP_ind pG guardQ).
+      - exact guard_value.
+      - intros k dflt dom Hd Hc. apply guard_option; [exact Hd|].
+        destruct dflt, dom; try exact I. discriminate Hc.
+      - exact guard_apply.
+      - intros es b Hl. discriminate Hl.
+      - intros src tbl dflt _ Ht Hd _. now apply guard_bind.
+      - intros disp tbl dflt _ Ht Hd. now apply guard_switch.
+      - intros disp cases dflt _ Hc Hd. now apply guard_case.
+      - intros ms Hc. discriminate Hc.
+      - intros es _. apply guard_iter.
+      - intros force pr e0 _. apply guard_with.
+      - exact guard_cached.
+      - exact guard_call.
+      - intros s ps Ht. discriminate Ht.
+      - intros e0 effs _. apply guard_comp.
+      - exact guard_logged.
+      - exact guard_pipe.
+      - intros _. exact guard_all.
+    Qed.
   End Guard.
 End Ref.
